@@ -66,7 +66,8 @@ def hostile_message(r):
         return hdr + eol + hostile_message(r)
     if r.random() < 0.3:
         hdr += b'Content-Transfer-Encoding: ' + r.choice([b'base64', b'quoted-printable', b'7bit', b'x-unknown']) + eol
-    return hdr + eol + r.choice([b'body\r\n', b'aGVsbG8=\r\n', b'=E9=\r\n', b'', b'\x00\xff'])
+    # bodies that end like the announcement of a literal: the bytes of a literal never take part in the framing of the command
+    return hdr + eol + r.choice([b'body\r\n', b'aGVsbG8=\r\n', b'=E9=\r\n', b'', b'\x00\xff', b'ends in {5+}', b'ends in {5}', b'x {2', b'{0+}', b'a\r\n{3+}\r\nabc'])
 
 
 def crash_site(c):
